@@ -464,6 +464,7 @@ type LoopSpec struct {
 	Invariants []*Clause
 	Decreases  *Clause
 	Modifies   []string // extra havoc names
+	EntryAssume []*Clause // facts about external (unmodelled) results, assumed at loop entry and listed
 }
 
 type FuncContract struct {
@@ -815,6 +816,12 @@ func ParseContractFile(path string, pkg string) (*ContractFile, error) {
 					return nil, fail(err)
 				}
 				ls.Invariants = append(ls.Invariants, c)
+			case "entry-assume":
+				c, err := parseClause("entry-assume", sprops, stail, l.no)
+				if err != nil {
+					return nil, fail(err)
+				}
+				ls.EntryAssume = append(ls.EntryAssume, c)
 			case "decreases":
 				c, err := parseClause("decreases", sprops, stail, l.no)
 				if err != nil {
